@@ -43,7 +43,21 @@ def run_c04(ctx):
     ctx.bounds.update({"skeletons": f"{n} canonical programs over 7 languages", "insertions": "a comment-only line (with leading whitespace token) above every chosen line boundary AND a trailing comment (line or block style) plus trailing whitespace after every line, simultaneously; in addition any number >= 0 of blank lines at <= 10 boundaries; second family: blank lines only",
                        "oracle": "metamorphic: the real scan_file on the canonical stream, re-laid-out through the same symbolic line/column map"})
     ctx.assumptions += COMMON_ASSUME
-    return ctx.run_xh(jobs + jobs2)
+    # vendored real-world files (corpus/): the same metamorphic harness on the real lexer's tokens of whole files. Insertion points are the lines at which the
+    # real lexer, run on the concretely modified text, yields the same code tokens (token-safe by construction); indentation is left as it is.
+    jobs4 = []
+    nfiles = 0
+    T = 200 if ctx.quick() else 600
+    for lang in skel.LANGS:
+        for k, (label, _text) in enumerate(skel.corpus_files(lang)):
+            nfiles += 1
+            plan = [("comments", 0)] + ([("gaps-vs-base", 1)] if k % 2 == 0 else []) if ctx.quick() else [(m, b) for m in ("comments", "gaps-vs-base") for b in range(6)]
+            for mode, bsel in plan:
+                jobs4.append(Job("skel_h.py", "h_layout", {"lang": lang, "tier": ctx.tier, "label": label, "mode": mode, "bsel": bsel}, T, 150, tag=f"{lang}/{label}/{mode}/bounds#{bsel}", meta={"tolerant": False, "twin": bsel == 0 and k == 0}))
+    ctx.bounds["corpus"] = (f"{nfiles} vendored real-world files (7 languages, 14..250 lines): <= 10 token-safe boundaries per condition (every n-th safe line, offset = bounds#), any number of blank lines at each; "
+                            "comments mode adds a comment-only line and whitespace-only lines above each boundary and a trailing comment after every line where the real lexer confirms it is token-safe")
+    ctx.outside += ["corpus: simultaneous insertions at more than 10 boundaries; re-indentation of real files"]
+    return ctx.run_xh(jobs + jobs2 + jobs4)
 
 
 def run_c17(ctx):
